@@ -188,6 +188,70 @@ def if_semantics():
     return guarded("if-forms", run)
 
 
+def if_parse_forms():
+    """The real IF rules of the grammar and the real visitor on every form x every kind of arm, conditions opaque:
+    (a) no emitted physical line starts with a digit (that would *define* a line in BASIC09, not jump to it);
+    (b) the jumps the emitted text performs, in order, are the jumps of the source arms (bare `THEN n`/`ELSE n` is a
+        GOTO, a GOSUB stays a GOSUB);
+    (c) the condition after IF / EXITIF is of BOOLEAN kind for an arbitrary numeric source condition, in every form
+        (BASIC09 refuses a REAL there)."""
+    import re
+    from tx import f2
+
+    def run():
+        res = []
+        ARMS = [("bare", "{n}", [("GOTO", "{n}")]), ("goto", "GOTO {n}", [("GOTO", "{n}")]), ("gosub", "GOSUB {n}", [("GOSUB", "{n}")]),
+                ("gosub-goto", "GOSUB {n}:GOTO 9{n}", [("GOSUB", "{n}"), ("GOTO", "9{n}")]),
+                ("goto-after-stmt", "STOP:GOTO {n}", [("GOTO", "{n}")]), ("gosub-then-stop", "GOSUB {n}:STOP", [("GOSUB", "{n}")])]
+        forms = []
+        for nelif, has_else in itertools.product((0, 1, 2), (False, True)):
+            forms.append((nelif, has_else))
+        for (nelif, has_else), sp in itertools.product(forms, ("", " ")):
+            narms = 1 + nelif + (1 if has_else else 0)
+            for kinds in (itertools.product(range(len(ARMS)), repeat=narms) if narms <= 2 else
+                          [tuple((k + j) % len(ARMS) for j in range(narms)) for k in range(len(ARMS))]):
+                parts, expect = [], []
+                for j, k in enumerate(kinds):
+                    n = str(100 + j)
+                    arm = ARMS[k][1].replace("{n}", n)
+                    expect += [(w, t.replace("{n}", n)) for w, t in ARMS[k][2]]
+                    if j == 0:
+                        parts.append("IF%sC0%sTHEN%s%s" % (" ", " ", sp, arm))
+                    elif j <= nelif:
+                        parts.append("ELSE%sIF C%d THEN%s%s" % (" ", j, sp, arm))
+                    else:
+                        parts.append("ELSE%s%s" % (sp if not arm[0].isalpha() else " ", arm))
+                src = " ".join(parts)
+                name = "if-parse/elif=%d,else=%d,arms=%s,sp=%r" % (nelif, has_else, "+".join(ARMS[k][0] for k in kinds), sp)
+                try:
+                    o, nops = f2.build("statement", src, {"if_exp": False})
+                    text = norm(o.basic09_text(1))
+                except Exception as e:  # noqa
+                    res.append(ob(name, False, "the form parses and is emitted", "%s: %s" % (type(e).__name__, str(e)[:150]), src))
+                    continue
+                lines = [l.strip() for l in text.split("\n")]
+                bad = []
+                if any(re.match(r"\d", l) for l in lines):
+                    bad.append("a physical line starts with a number (defines a line instead of jumping): %r" % [l for l in lines if re.match(r"\d", l)])
+                jumps = []
+                for l in lines:
+                    m = re.match(r"(?:IF|EXITIF) .* THEN (\d+)$", l)
+                    if m:
+                        jumps.append(("GOTO", m.group(1)))
+                    jumps += re.findall(r"\b(GOTO|GOSUB) (\d+)", l)
+                if jumps != expect:
+                    bad.append("jumps %r, source has %r" % (jumps, expect))
+                for l in lines:
+                    m = re.match(r"(?:IF|EXITIF) (.*?) THEN", l)
+                    if m and m.group(1) != "TRUE" and not re.fullmatch(r"⟦E\d+@\d⟧ <> 0(\.0?)?", m.group(1)):
+                        bad.append("condition %r is the bare numeric operand, not a BOOLEAN expression" % m.group(1))
+                if nops != 1 + nelif:
+                    bad.append("%d conditions found, %d written" % (nops, 1 + nelif))
+                res.append(ob(name, not bad, "jumps as written, conditions boolean, no stray line definitions", bad[:3], src + "  =>  " + text.replace("\n", " | ")))
+        return res
+    return guarded("if-parse", run)
+
+
 def prog_sequencing():
     def run():
         res = []
@@ -226,4 +290,4 @@ def convert_sequencing():
 
 
 def obligations():
-    return next_patcher() + fornext_count() + if_semantics() + prog_sequencing() + convert_sequencing()
+    return next_patcher() + fornext_count() + if_semantics() + if_parse_forms() + prog_sequencing() + convert_sequencing()
